@@ -13,6 +13,7 @@ import (
 
 	"mpcverif/internal/dispatch"
 	"mpcverif/internal/load"
+	"mpcverif/internal/proto"
 	"mpcverif/internal/report"
 )
 
@@ -647,6 +648,16 @@ func C19mesh(p *load.Program, run *report.Run) {
 			if c, ok := as.Rhs[0].(*ast.CallExpr); ok {
 				if sel, ok := c.Fun.(*ast.SelectorExpr); ok && strings.HasPrefix(sel.Sel.Name, "Receive") {
 					recvVars = append(recvVars, x19(as.Lhs[0]))
+				}
+				// a helper of the package that reads one length-prefixed field off the connection
+				if id, ok := c.Fun.(*ast.Ident); ok {
+					if pk := p.ByPath[load.Module+"/p2p"]; pk != nil {
+						if fo, ok := pk.TypesInfo.Uses[id].(*types.Func); ok {
+							if sf := p.SSA.FuncValue(fo); sf != nil && proto.LengthPrefixedReader(sf) {
+								recvVars = append(recvVars, x19(as.Lhs[0]))
+							}
+						}
+					}
 				}
 			}
 		}
